@@ -1,21 +1,26 @@
 # C19 — image conversion emits descriptors that describe exactly the blobs it wrote
 PROPS["C19"] = dict(
     props_file="Properties/C19.v",
-    harnesses=[dict(cmd="convert", mod="root", model="Model.Convert", quick=28, thorough=700, shard=60, timeout=1500,
+    # C19_THOROUGH / C19_RACE: developer overrides for mutation runs in a scratch worktree (registered commands never set them)
+    harnesses=[dict(cmd="convert", mod="root", model="Model.Convert", quick=28, thorough=int(_os.environ.get("C19_THOROUGH", "700")), shard=60, timeout=1500,
+                    race=int(_os.environ.get("C19_RACE", "24")), race_timeout=3000,
                     require=["kind.esgz", "kind.zstd", "kind.ext", "kind.extll", "api.common", "api.perlayer", "parallel",
                              "src.none", "src.gzip", "src.zstd", "src.esgz", "fam.oci", "fam.docker", "fam.ocind",
-                             "pre.ingest", "pre.retry", "res.ok", "result.blob.existed"])],
+                             "pre.ingest", "pre.retry", "pre.interrupt", "pre.interrupt.left", "gate.parked", "res.ok", "result.blob.existed"])],
     rule="images of 1..6 generated tar layers stored uncompressed / gzip / zstd / already eStargz / already zstd:chunked under OCI, OCI-nondistributable, "
          "Docker and Docker-foreign media types, with none / distribution-source / stale uncompressed labels, converted by ONE converter instance "
          "(estargz, zstdchunked, external-TOC, external-TOC lossless; common-option and per-layer-option constructors; option slice with spare capacity; "
          "chunk / min-chunk / level / prioritized files) sequentially or all layers in parallel, after an interrupted conversion left an ingest under the "
-         "writer ref or as a retry; non-trivial = at least one layer converted; distinct = distinct (kind, inputs, observed descriptors, TOC image)",
+         "writer ref, after a conversion with OTHER options died mid-stream (fault-injecting content writer) leaving a prefix of its blob under the same ref, "
+         "or as a retry; forced schedule for external-TOC converters (a wrapping content store parks the first layer about to store its TOC until another layer "
+         "is converted completely); thorough tier: the same harness under the Go race detector (all layers in parallel, shared option slices incl. the "
+         "WithAllowPrioritizeNotFound slice as ctr-remote passes it); non-trivial = at least one layer converted; distinct = distinct (kind, inputs, observed descriptors, TOC image)",
     assumptions=[
         "SHA-256, byte length, decompression and TOC digest are abstract functions H, len, payload, tocdg of the committed blob (no injectivity assumed); "
         "estargz.Build / Writer.Close / Blob accessors return these values (cross-checked on every case by the harness, which recomputes them from the committed blob)",
         "every content-store call (Commit, Update, Info) is atomic and the map update runs under esgzDigest2TOCMu (patches/C19-fix-1), so a schedule of "
         "concurrent, interrupted and retried conversions is a list of the sub-steps Uncompress/Commit/Record; Go-level data races are outside the model "
-        "(the race detector run of the harness is clean after fix-1/fix-2)",
+        "(searched by the thorough tier's race-detector run of the harness, clean after fix-1/fix-2/fix-5)",
         "containerd content/local store with a label store stands for the content store; cs.Update of one label is supported (as containerd's metadata store does)",
         "layer media types outside the 11 modelled ones (e.g. +encrypted suffixes) are not covered",
     ],
@@ -23,11 +28,12 @@ PROPS["C19"] = dict(
                "of the committed blob; media-type table matches the compression written (finite, by cases); lossless keeps DiffID and length; the store's "
                "uncompressed label of a converted digest is the DiffID of a blob committed under it, for every initial store and schedule; the TOC image "
                "has exactly one entry per converted layer digest, mapping it (through fetcher.go's lookup) to the TOC of a conversion of that digest, for "
-               "every schedule; last writer wins on duplicate keys; order-independent on distinct keys. The model is run against the real converters "
+               "every schedule; last writer wins on duplicate keys; order-independent on distinct keys; content writer under a reused writer ref: for every "
+               "leftover ingest and every history of interrupted/retried attempts with arbitrary builds, a completed attempt commits exactly its own build. The model is run against the real converters "
                "and a content/local store on generated images every run; a model-free oracle recomputes every clause from the committed blobs "
                "(sha256, size, decompress, estargz.Open + VerifyTOC + per-file digests, TOC image lookup).",
-    level_note="Model (coq/Model/Convert.v) is hand-written and describes the code after patches/C19-fix-1..4 (mutex on esgzDigest2TOC; option slices not shared "
-               "between concurrent conversions; gzip media type for zstd inputs; uncompressed label written when the blob already exists). Builder, compressors, "
+    level_note="Model (coq/Model/Convert.v) is hand-written and describes the code after patches/C19-fix-1..5 (mutex on esgzDigest2TOC; option slices not shared "
+               "between concurrent conversions; gzip media type for zstd inputs; uncompressed label written when the blob already exists; mutex on the shared missed-prioritized-files slice). Builder, compressors, "
                "content store and hash are abstract; their contracts are checked per case by the harness oracle only.",
     technique="Coq proof: composition over abstract blob functions; invariants by induction over arbitrary op lists (schedules); finite media-type table by "
               "computation; correspondence by vm_compute on observed conversions",
